@@ -19,7 +19,7 @@ LEVEL_NOTE = "Empirical claims about an optimiser: 'held' means held for the gen
 TECHNIQUE = "runtime monitoring: generated inverse problems through the real fit/save/load path; recomputation oracle, repeat-history comparison and purity digests"
 RULE = ("problems drawn uniformly from the box; theory Mie (2/3) or MieLens with free lens angle (1/3); strategy NmpfitStrategy "
         "/ LeastSquaresScipyStrategy; data full image or 60 percent pixel subset (seeded); start = truth or truth*(1+u), "
-        "|u|<=0.02 per parameter; the same strategy object then fits a second particle; forms: verbose output, direct minimize() twice, one free parameter (recorded). non-trivial = fit returned a result; distinct by rounded case JSON")
+        "|u|<=0.02 per parameter; the same strategy object then fits a second particle; forms: verbose output, direct minimize() twice, one free parameter (recorded), seeds 0 / np.int64(0) for the pixel subsets, extensionless result names. non-trivial = fit returned a result; distinct by rounded case JSON")
 ASSUMPTIONS = ["recovery is claimed for position, radius and scaling free (index fixed), as the property states",
                "the scipy strategy draws its pixel subset from numpy's global stream, so repeatability is checked after re-seeding that stream"]
 MIN_NONTRIVIAL = 6
